@@ -385,6 +385,9 @@ func (l *Linter) LintFiles(filepaths []string, project *Project) ([]*Error, erro
 	}
 
 	if err := eg.Wait(); err != nil {
+		// External processes started by the other files may still be running. Wait for them before
+		// returning so that no child process outlives this call.
+		proc.wait()
 		return nil, err
 	}
 
